@@ -164,6 +164,40 @@ def check(run):
                                   else refsub.shape(s, t)))
         run.log("stream %s: %d pairs, %d requests, %d differ, %d contradict the declarative relation"
                 % (label, len(pairs), len(rqs), len(diffs), bad))
+    # every top-level is_subtype / is_assignable query of real generator + mutation runs
+    import pipeline
+    pipeline.setup()
+    nprog = 3 if quick else 40
+    specs = [{"lang": l, "seed": run.seed * 1000 + i, "stages": ["gen", "erase", "overwrite"], "export": False,
+              "cap": 60 if quick else 300, "plugins": ["plugin_subtype"], "erasure_options": {"max_combinations": 2000}}
+             for l in pipeline.LANGS for i in range(nprog)]
+    results = pipeline.run_many(specs)
+    rqs, impl, names = [], [], []
+    total_calls = 0
+    for r in results:
+        pl = (r.get("plugins") or {}).get("plugin_subtype") or {}
+        total_calls += pl.get("total_calls", 0)
+        for q in pl.get("queries", []):
+            rq = q["rq"]
+            if rq["op"] == "types.assignable":
+                rq["extra"] = extra
+            rqs.append(rq)
+            impl.append(q["impl"])
+            names.append((q["s"], q["t"]))
+    run.cov["generator_runs"] = len(results)
+    run.cov["generator_runs_cut_off"] = sum(1 for r in results if r.get("cutoff"))
+    run.cov["generator_top_level_queries"] = total_calls
+    for ia in impl:
+        run.tally("generator_query_answers", str(ia))
+    if rqs:
+        diffs = compare_stream(run, rqs, impl, "generator queries", nontrivial=nontrivial)
+        run.log("stream generator queries: %d programs, %d top-level calls, %d distinct compared, %d differ"
+                % (len(results), total_calls, len(rqs), len(diffs)))
+        if diffs:
+            i, rq, ia, ma = diffs[0]
+            run.violation({"kind": "broken-correspondence", "correspondence": "generator query (%s)" % rq["op"],
+                           "s": names[i][0], "t": names[i][1], "request": rq, "implementation": ia, "model": ma},
+                          signature="%s:model-differs" % rq["op"], no_input=True)
     if not proofs_ok and not run.violations:
         run.violation({"kind": "broken-proof", "obligations": run.broken}, signature="proof", no_input=True)
 
